@@ -61,8 +61,13 @@ def typed_model(i):
   Real x(start = {iv}, min = {iv - 1}, nominal = {abs(iv) + 1});
   Real y(start = {iv}.5);
   constant Integer kc = {iv + 1};
+  parameter Integer ne = 2 * {abs(iv) + 1};
+  constant Integer ke = {iv} - 4;
+  Integer n2(start = 2 * {iv}, max = 10 * 100, min = -(4 + {abs(iv)}));
+  Integer n3(start = sum({{1, {abs(iv)}}}));
+  Real x2(start = 2 * {iv}, nominal = 10 / 4);
 equation
-  n = 1; m = 2; b = true; x = 1; y = 2;
+  n = 1; m = 2; b = true; x = 1; y = 2; n2 = 3; n3 = 4; x2 = 5;
 end M;
 """
 
